@@ -142,12 +142,23 @@ Record exn_st := mkE { tb : list frame; pr : prep }.
 Definition push (f : frame) (e : exn_st) : exn_st := mkE (f :: tb e) (pr e).
 Definition pushes (fs : list frame) (e : exn_st) : exn_st := fold_left (fun e f => push f e) fs e.
 
-(* async_task.py 257-283 *)
+(* async_task.py 257-283, with the repair of work/fixes/C18-accept-error-stale-traceback.diff: an
+   instance that was passed to qcore.prepare_for_reraise somewhere else before it was raised in
+   this task gets the traceback it was just caught with, like every other error. *)
 Definition accept_error (e : exn_st) : exn_st :=
   match pr e with
   | NotPrepared => mkE (tb e) (Prepared (tb e) true)            (* _task = self; prepare_for_reraise *)
-  | Prepared s false => mkE (tb e) (Prepared s true)            (* prepare_for_reraise keeps _traceback *)
+  | Prepared _ false => mkE (tb e) (Prepared (tb e) true)       (* repaired: refresh the stale _traceback *)
   | Prepared _ true => mkE (tb e) (Prepared (tb e) true)        (* error._traceback = sys.exc_info()[2] *)
+  end.
+
+(* the code as found: prepare_for_reraise does nothing when _type_ is already there, so the
+   _traceback stored at the earlier site survives and this task's frames are lost *)
+Definition accept_error_as_found (e : exn_st) : exn_st :=
+  match pr e with
+  | NotPrepared => mkE (tb e) (Prepared (tb e) true)
+  | Prepared s false => mkE (tb e) (Prepared s true)
+  | Prepared _ true => mkE (tb e) (Prepared (tb e) true)
   end.
 
 (* qcore.errors.reraise: raise error.with_traceback(error._traceback) | raise error *)
@@ -199,10 +210,16 @@ Definition leave_task (e : exn_st) : exn_st :=
 
 Inductive bottom :=
 | BRaise (k : nat)       (* k nested plain helper calls, the innermost raises (k = 0: the body itself) *)
-| BErrorFuture.          (* the body awaits ErrorFuture(fresh exception)                               *)
+| BErrorFuture           (* the body awaits ErrorFuture(fresh exception)                               *)
+| BPrepared (k : nat).   (* like BRaise, but the instance raised is one that was raised, caught and passed
+                            to qcore.prepare_for_reraise at another site (PREP_SITE) earlier            *)
 
 Fixpoint helper_frames (k : nat) (j : Z) : list frame :=
   match k with O => [] | S k' => FHelper j :: helper_frames k' (j + 1)%Z end.
+
+Definition PREP_SITE : frame := FHelper (-1).
+(* the instance as it is when raised again: __traceback__ and _traceback hold the earlier site *)
+Definition prepared_exn : exn_st := mkE [PREP_SITE] (Prepared [PREP_SITE] false).
 
 Definition bottom_result (i : Z) (b : bottom) : exn_st :=
   match b with
@@ -211,6 +228,8 @@ Definition bottom_result (i : Z) (b : bottom) : exn_st :=
   | BErrorFuture =>
     leave_task (push (FTask i)
       (throw_into (pushes [FInt I_unwrap; FInt I_continue] (value_raises fresh_exn))))
+  | BPrepared k =>
+    leave_task (push (FTask i) (pushes (rev (helper_frames k 1)) prepared_exn))
   end.
 
 (* error stored on the task at level i (None: the task returned normally) *)
